@@ -360,3 +360,28 @@ def write_evidence(mod, prop_id, tier, seed, results, violations, known_hits,
     os.makedirs(os.path.join(ROOT, 'evidence'), exist_ok=True)
     with open(os.path.join(ROOT, 'evidence', prop_id + '.json'), 'w') as f:
         json.dump(ev, f, indent=1, default=str)
+
+
+def replay_file(prop_id, path):
+    """Re-run a recorded counterexample natively (real hyperframe/hpack, no tracer)
+    against the current tree.  exit 1 if it still violates, 0 if not."""
+    from . import core
+    rec = json.load(open(path))
+    mod = importlib.import_module('props.' + prop_id.lower())
+    shards = [s for s in mod.shards(rec.get('tier', 'thorough'), rec.get('seed', 0))
+              if s.name == rec['shard']]
+    if not shards:
+        shards = [s for s in mod.shards('thorough', rec.get('seed', 0))
+                  if s.name == rec['shard']]
+    if not shards:
+        print("replay: shard %s not found" % rec['shard'], file=sys.stderr)
+        return EXIT_HARNESS
+    ok, clause, detail, notes = core.run_native(shards[0].fn, rec['model'])
+    print("replay shard=%s model=%s" % (rec['shard'], rec['model']))
+    print("  notes=%s" % (notes,))
+    if ok:
+        print("  no violation on the current tree")
+        return EXIT_OK
+    print("  clause=%s\n  detail=%s" % (clause, detail))
+    print("VIOLATION property=%s replay=%s" % (prop_id, path))
+    return EXIT_VIOLATION
